@@ -1,13 +1,184 @@
-(* Lexical layer of the STAMQL parser: the lexer functions never panic, for any input. *)
+(* Lexical layer of the STAMQL parser: basic facts about the string primitives,
+   totality of the lexer functions (no panic, no exhausted budget, for any
+   input), length bounds of the remainders they return, and what the argument
+   classification of get_arg_type guarantees. *)
 From Coq Require Import List ZArith NArith Bool Arith Lia.
 Import ListNotations.
 From Stam Require Import Model.StamqlLex.
 Local Open Scope stamql_scope.
 
-Lemma get_arg_loop_nopanic : forall dt s quote escaped all_rev q_rev,
-  get_arg_loop dt quote escaped all_rev q_rev s <> Panic
-  /\ get_arg_loop dt quote escaped all_rev q_rev s <> Fuel.
+(* ---------- outcomes ---------- *)
+Definition np {A} (o : outcome A) : Prop := o <> Panic.
+Definition nf {A} (o : outcome A) : Prop := o <> Fuel.
+
+Lemma bind_ok {A B} (o : outcome A) (f : A -> outcome B) b :
+  bind o f = Ok b -> exists a, o = Ok a /\ f a = Ok b.
+Proof. destruct o; cbn; try discriminate. eauto. Qed.
+
+Lemma np_bind {A B} (o : outcome A) (f : A -> outcome B) :
+  np o -> (forall a, o = Ok a -> np (f a)) -> np (bind o f).
+Proof. unfold np; destruct o; cbn; intros; try congruence. auto. Qed.
+
+Lemma nf_bind {A B} (o : outcome A) (f : A -> outcome B) :
+  nf o -> (forall a, o = Ok a -> nf (f a)) -> nf (bind o f).
+Proof. unfold nf; destruct o; cbn; intros; try congruence. auto. Qed.
+
+Lemma np_ok {A} (a : A) : np (Ok a). Proof. discriminate. Qed.
+Lemma np_err {A} : np (@Err A). Proof. discriminate. Qed.
+Lemma nf_ok {A} (a : A) : nf (Ok a). Proof. discriminate. Qed.
+Lemma nf_err {A} : nf (@Err A). Proof. discriminate. Qed.
+#[export] Hint Resolve np_ok np_err nf_ok nf_err : stamql.
+
+(* ---------- strings ---------- *)
+Lemma str_eqb_eq : forall a b, str_eqb a b = true <-> a = b.
 Proof.
+  induction a as [|x a IH]; destruct b as [|y b]; cbn; split; intros H; try discriminate; auto.
+  - apply andb_true_iff in H as [H1 H2]. apply N.eqb_eq in H1. apply IH in H2. congruence.
+  - inversion H; subst. rewrite N.eqb_refl. cbn. apply IH. reflexivity.
+Qed.
+
+Lemma str_eqb_refl : forall a, str_eqb a a = true.
+Proof. intros; apply str_eqb_eq; reflexivity. Qed.
+
+Lemma starts_with_app : forall p s, starts_with p s = true <-> exists r, s = p ++ r.
+Proof.
+  induction p as [|x p IH]; intros s; cbn.
+  - split; eauto.
+  - destruct s as [|y s]; split; intros H; try discriminate.
+    + destruct H as [r H]; discriminate.
+    + apply andb_true_iff in H as [H1 H2]. apply N.eqb_eq in H1. apply IH in H2 as [r ->].
+      subst. eauto.
+    + destruct H as [r H]. inversion H; subst. rewrite N.eqb_refl. cbn. apply IH. eauto.
+Qed.
+
+Lemma trim_start_len : forall s, length (trim_start s) <= length s.
+Proof. induction s as [|c s IH]; cbn; [lia|]. destruct (is_ws c); cbn; lia. Qed.
+
+Definition hd_nows (s : str) : Prop :=
+  match s with [] => True | c :: _ => is_ws c = false end.
+
+Lemma trim_start_hd : forall s, hd_nows (trim_start s).
+Proof. induction s as [|c s IH]; cbn; auto. destruct (is_ws c) eqn:E; cbn; auto. Qed.
+
+Lemma trim_start_fix : forall s, hd_nows s -> trim_start s = s.
+Proof. destruct s as [|c s]; cbn; auto. intros ->. reflexivity. Qed.
+
+Lemma trim_start_idem : forall s, trim_start (trim_start s) = trim_start s.
+Proof. intros; apply trim_start_fix, trim_start_hd. Qed.
+
+Lemma trim_start_snoc : forall l c, is_ws c = false -> trim_start (l ++ [c]) = trim_start l ++ [c].
+Proof.
+  induction l as [|x l IH]; intros c H; cbn.
+  - rewrite H. reflexivity.
+  - destruct (is_ws x); auto.
+Qed.
+
+Lemma trim_end_len : forall s, length (trim_end s) <= length s.
+Proof.
+  intros. unfold trim_end. rewrite rev_length.
+  pose proof (trim_start_len (rev s)). rewrite rev_length in H. lia.
+Qed.
+
+Lemma trim_end_hd : forall s, hd_nows s -> hd_nows (trim_end s).
+Proof.
+  destruct s as [|c s]; cbn; auto. intros H. unfold trim_end. cbn [rev].
+  rewrite trim_start_snoc by exact H. rewrite rev_app_distr. cbn. exact H.
+Qed.
+
+Lemma trim_len : forall s, length (trim s) <= length s.
+Proof.
+  intros. unfold trim. pose proof (trim_end_len (trim_start s)). pose proof (trim_start_len s). lia.
+Qed.
+
+Lemma trim_hd : forall s, hd_nows (trim s).
+Proof. intros. unfold trim. apply trim_end_hd, trim_start_hd. Qed.
+
+Lemma trim_start_trim : forall s, trim_start (trim s) = trim s.
+Proof. intros; apply trim_start_fix, trim_hd. Qed.
+
+Lemma first_nonspace_fix : forall s, hd_nows s -> first_nonspace s = hd_error s.
+Proof. intros. unfold first_nonspace. rewrite trim_start_fix; auto. Qed.
+
+Lemma split_first_prefix : forall s, exists r, s = split_first s ++ r.
+Proof.
+  induction s as [|c s [r IH]]; cbn; [exists []; reflexivity|].
+  destruct (is_split c); [exists (c :: s); reflexivity|].
+  exists r. cbn. congruence.
+Qed.
+
+Lemma split_first_starts : forall s, starts_with (split_first s) s = true.
+Proof. intros. apply starts_with_app. apply split_first_prefix. Qed.
+
+Lemma trim_start_semis_suffix : forall s, exists p, s = p ++ trim_start_semis s.
+Proof.
+  induction s as [|c s [p IH]]; cbn; [exists []; reflexivity|].
+  destruct (c =? c_semicolon)%N; [exists (c :: p); cbn; congruence | exists []; reflexivity].
+Qed.
+
+Lemma trim_end_semis_prefix : forall s, exists r, s = trim_end_semis s ++ r.
+Proof.
+  intros. unfold trim_end_semis. destruct (trim_start_semis_suffix (rev s)) as [p H].
+  exists (rev p). rewrite <- rev_app_distr, <- H, rev_involutive. reflexivity.
+Qed.
+
+(* ---------- byte slices ---------- *)
+Lemma clen_pos : forall c, 1 <= clen c.
+Proof. intros. unfold clen. repeat destruct (_ <? _)%N; lia. Qed.
+
+Lemma drop_bytes_app : forall p r, drop_bytes (blen p) (p ++ r) = Some r.
+Proof.
+  induction p as [|c p IH]; intros r; cbn [blen fold_right app].
+  - destruct r; reflexivity.
+  - pose proof (clen_pos c). fold (blen p).
+    destruct (clen c + blen p) eqn:E; [lia|]. cbn [drop_bytes]. rewrite <- E.
+    replace (clen c <=? clen c + blen p) with true by (symmetry; apply Nat.leb_le; lia).
+    replace (clen c + blen p - clen c) with (blen p) by lia. apply IH.
+Qed.
+
+Lemma slice_from_app : forall p r, slice_from (blen p) (p ++ r) = Ok r.
+Proof. intros. unfold slice_from. rewrite drop_bytes_app. reflexivity. Qed.
+
+Lemma drop_bytes_len : forall k s r, drop_bytes k s = Some r -> length r + (if k =? 0 then 0 else 1) <= length s.
+Proof.
+  intros k s; revert k. induction s as [|c s IH]; intros k r H.
+  - destruct k; cbn in H; inversion H; cbn; lia.
+  - destruct k; cbn in H; [inversion H; cbn; lia|].
+    destruct (clen c <=? S k) eqn:E; [|discriminate].
+    apply IH in H. cbn [length]. destruct (S k - clen c =? 0); cbn [Nat.eqb]; lia.
+Qed.
+
+Lemma slice_from_len : forall k s r, slice_from k s = Ok r -> length r <= length s.
+Proof.
+  unfold slice_from; intros k s r H. destruct (drop_bytes k s) eqn:E; inversion H; subst.
+  apply drop_bytes_len in E. lia.
+Qed.
+
+Lemma slice_from_lt : forall k s r, 0 < k -> slice_from k s = Ok r -> length r < length s.
+Proof.
+  unfold slice_from; intros k s r Hk H. destruct (drop_bytes k s) eqn:E; inversion H; subst.
+  apply drop_bytes_len in E. destruct k; [lia|]. cbn in E. lia.
+Qed.
+
+(* a prefix test that succeeded makes the slice behind it safe *)
+Lemma slice_after_prefix : forall p s, starts_with p s = true -> exists r, s = p ++ r /\ slice_from (blen p) s = Ok r.
+Proof. intros p s H. apply starts_with_app in H as [r ->]. exists r. split; auto. apply slice_from_app. Qed.
+
+Lemma slice_np_prefix : forall p s, starts_with p s = true -> np (slice_from (blen p) s).
+Proof. intros p s H. destruct (slice_after_prefix p s H) as [r [_ ->]]. apply np_ok. Qed.
+
+(* two strings of one-byte characters of the same length: same byte length *)
+Definition ascii (s : str) : Prop := Forall (fun c => (c < 128)%N) s.
+Lemma blen_ascii : forall s, ascii s -> blen s = length s.
+Proof.
+  induction 1 as [|c s Hc _ IH]; cbn; auto. fold (blen s). rewrite IH.
+  unfold clen. apply N.ltb_lt in Hc. rewrite Hc. reflexivity.
+Qed.
+
+(* ---------- get_arg ---------- *)
+Lemma get_arg_loop_total : forall dt s quote escaped all_rev q_rev,
+  np (get_arg_loop dt quote escaped all_rev q_rev s) /\ nf (get_arg_loop dt quote escaped all_rev q_rev s).
+Proof.
+  unfold np, nf.
   induction s as [|c s IH]; intros; cbn [get_arg_loop]; [split; discriminate|].
   destruct ((c =? c_dquote)%N && negb escaped).
   - destruct quote; [split; discriminate | apply IH].
@@ -16,4 +187,195 @@ Proof.
 Qed.
 
 Theorem get_arg_total : forall dt s, get_arg dt s <> Panic /\ get_arg dt s <> Fuel.
-Proof. intros; apply get_arg_loop_nopanic. Qed.
+Proof. intros; apply get_arg_loop_total. Qed.
+
+Lemma get_arg_np : forall dt s, np (get_arg dt s).
+Proof. intros; apply get_arg_total. Qed.
+Lemma get_arg_nf : forall dt s, nf (get_arg dt s).
+Proof. intros; apply get_arg_total. Qed.
+#[export] Hint Resolve get_arg_np get_arg_nf : stamql.
+
+Lemma get_arg_loop_len : forall dt s quote escaped all_rev q_rev a r t,
+  get_arg_loop dt quote escaped all_rev q_rev s = Ok (a, r, t) -> length r <= length s.
+Proof.
+  induction s as [|c s IH]; intros quote escaped all_rev q_rev a r t H; cbn [get_arg_loop] in H; [discriminate|].
+  destruct ((c =? c_dquote)%N && negb escaped).
+  - destruct quote.
+    + inversion H; subst. pose proof (trim_start_len s). cbn; lia.
+    + apply IH in H. cbn; lia.
+  - destruct (negb quote && starts_with K__OR_ (c :: s)).
+    + inversion H; subst. pose proof (trim_start_len s). cbn; lia.
+    + destruct (negb quote && is_term c).
+      * inversion H; subst. apply (trim_start_len (c :: s)).
+      * apply IH in H. cbn; lia.
+Qed.
+
+Lemma get_arg_len : forall dt s a r t, get_arg dt s = Ok (a, r, t) -> length r <= length s.
+Proof. intros dt s a r t H. eapply get_arg_loop_len; exact H. Qed.
+
+Lemma get_arg_loop_hd : forall dt s quote escaped all_rev q_rev a r t,
+  get_arg_loop dt quote escaped all_rev q_rev s = Ok (a, r, t) -> hd_nows r.
+Proof.
+  induction s as [|c s IH]; intros quote escaped all_rev q_rev a r t H; cbn [get_arg_loop] in H; [discriminate|].
+  destruct ((c =? c_dquote)%N && negb escaped).
+  - destruct quote; [inversion H; subst; apply trim_start_hd | eapply IH; exact H].
+  - destruct (negb quote && starts_with K__OR_ (c :: s)); [inversion H; subst; apply trim_start_hd|].
+    destruct (negb quote && is_term c); [inversion H; subst; apply (trim_start_hd (c :: s)) | eapply IH; exact H].
+Qed.
+
+(* the remainder get_arg returns never starts with white space *)
+Lemma get_arg_hd : forall dt s a r t, get_arg dt s = Ok (a, r, t) -> hd_nows r.
+Proof. intros dt s a r t H. eapply get_arg_loop_hd; exact H. Qed.
+
+(* ---------- get_arg_type ---------- *)
+Lemma gat_loop_some : forall s quoted numeric fp prevc t n f,
+  gat_loop quoted numeric fp prevc s = (Some t, n, f) -> t = TList \/ t = TUnquotedList.
+Proof.
+  induction s as [|c s IH]; intros quoted numeric fp prevc t n f H; cbn [gat_loop] in H; [discriminate|].
+  match type of H with (if ?c then _ else _) = _ => destruct c end.
+  - inversion H; subst. destruct quoted; auto.
+  - match type of H with (let '(_, _) := ?x in _) = _ => destruct x end. eapply IH; exact H.
+Qed.
+
+(* the "." of a float clears the numeric flag before it is counted: numeric -> no period seen *)
+Lemma gat_loop_noperiod : forall s quoted numeric fp prevc f,
+  (numeric = true -> fp = false) ->
+  gat_loop quoted numeric fp prevc s = (None, true, f) -> f = false.
+Proof.
+  induction s as [|c s IH]; intros quoted numeric fp prevc f Hinv H; cbn [gat_loop] in H.
+  - inversion H; subst. auto.
+  - match type of H with (if ?c then _ else _) = _ => destruct c end; [discriminate|].
+    set (numeric1 := if negb (is_digit c)
+                     then if negb (c =? c_minus)%N || match prevc with Some _ => true | None => false end
+                          then false else numeric
+                     else numeric) in *.
+    assert (Hn1 : numeric1 = true -> numeric = true).
+    { subst numeric1. destruct (negb (is_digit c)); auto.
+      destruct (negb (c =? c_minus)%N || _); auto; discriminate. }
+    destruct (numeric1 && (c =? c_period)%N) eqn:E.
+    + exfalso. apply andb_true_iff in E as [E1 E2]. apply N.eqb_eq in E2. subst c.
+      subst numeric1. cbn in E1. discriminate.
+    + eapply IH; [|exact H]. intros Hn. auto.
+Qed.
+
+Theorem get_arg_type_never_float : forall dt s quoted, get_arg_type dt s quoted <> TFloat.
+Proof.
+  intros dt s quoted. unfold get_arg_type. destruct s as [|c s]; [discriminate|].
+  destruct (gat_loop quoted (negb quoted) false None (c :: s)) as [[o n] f] eqn:E.
+  destruct o as [t|].
+  - apply gat_loop_some in E as [-> | ->]; discriminate.
+  - destruct n.
+    + apply gat_loop_noperiod in E; [subst; discriminate | auto].
+    + destruct (str_eqb (c :: s) K_null); [discriminate|].
+      destruct (str_eqb (c :: s) K_any); [discriminate|].
+      destruct (str_eqb (c :: s) K_true || str_eqb (c :: s) K_false); [discriminate|].
+      destruct (dt (c :: s)); discriminate.
+Qed.
+
+Lemma get_arg_type_bool : forall dt s quoted,
+  get_arg_type dt s quoted = TBool -> s = K_true \/ s = K_false.
+Proof.
+  intros dt s quoted. unfold get_arg_type. destruct s as [|c s]; [discriminate|].
+  destruct (gat_loop quoted (negb quoted) false None (c :: s)) as [[o n] f] eqn:E.
+  destruct o as [t|].
+  - apply gat_loop_some in E as [-> | ->]; discriminate.
+  - destruct n; [destruct f; discriminate|].
+    destruct (str_eqb (c :: s) K_null); [discriminate|].
+    destruct (str_eqb (c :: s) K_any); [discriminate|].
+    destruct (str_eqb (c :: s) K_true) eqn:Et.
+    + intros _. left. apply str_eqb_eq. exact Et.
+    + destruct (str_eqb (c :: s) K_false) eqn:Ef; cbn.
+      * intros _. right. apply str_eqb_eq. exact Ef.
+      * destruct (dt (c :: s)); discriminate.
+Qed.
+
+Lemma get_arg_type_datetime : forall dt s quoted,
+  get_arg_type dt s quoted = TDatetime -> exists d, dt s = Some d.
+Proof.
+  intros dt s quoted. unfold get_arg_type. destruct s as [|c s]; [discriminate|].
+  destruct (gat_loop quoted (negb quoted) false None (c :: s)) as [[o n] f] eqn:E.
+  destruct o as [t|].
+  - apply gat_loop_some in E as [-> | ->]; discriminate.
+  - destruct n; [destruct f; discriminate|].
+    destruct (str_eqb (c :: s) K_null); [discriminate|].
+    destruct (str_eqb (c :: s) K_any); [discriminate|].
+    destruct (str_eqb (c :: s) K_true || str_eqb (c :: s) K_false); [discriminate|].
+    destruct (dt (c :: s)) eqn:D; [eauto | discriminate].
+Qed.
+
+(* ---------- parse_name ---------- *)
+Lemma parse_name_total : forall s, np (parse_name s) /\ nf (parse_name s).
+Proof.
+  intros s. unfold parse_name. destruct s as [|c s]; [split; discriminate|].
+  destruct (c =? c_qmark)%N eqn:E; [|split; discriminate].
+  change (slice_from 1 (c :: s)) with (slice_from (blen [c_qmark]) (c :: s)).
+  apply N.eqb_eq in E. subst c.
+  change (c_qmark :: s) with ([c_qmark] ++ s). rewrite slice_from_app. cbn [bind].
+  destruct (split_first_prefix s) as [r1 H1].
+  destruct (trim_end_semis_prefix (split_first s)) as [r2 H2].
+  set (name := trim_end_semis (split_first s)) in *.
+  assert (Hs : [c_qmark] ++ s = (c_qmark :: name) ++ (r2 ++ r1)).
+  { cbn. f_equal. rewrite H1 at 1. rewrite H2 at 1. rewrite <- app_assoc. reflexivity. }
+  replace (1 + blen name) with (blen (c_qmark :: name)) by reflexivity.
+  rewrite Hs, slice_from_app. cbn [bind]. split; discriminate.
+Qed.
+
+Lemma parse_name_len : forall s n r, parse_name s = Ok (n, r) -> length r <= length s.
+Proof.
+  intros s n r. unfold parse_name. destruct s as [|c s]; [intros H; inversion H; auto|].
+  destruct (c =? c_qmark)%N; [|intros H; inversion H; auto].
+  intros H. apply bind_ok in H as [r0 [_ H]]. apply bind_ok in H as [rest [H1 H]].
+  inversion H; subst. apply slice_from_len in H1. pose proof (trim_start_len rest). lia.
+Qed.
+
+Lemma parse_name_hd : forall s n r, hd_nows s -> parse_name s = Ok (n, r) -> hd_nows r.
+Proof.
+  intros s n r Hs. unfold parse_name. destruct s as [|c s]; [intros H; inversion H; subst; auto|].
+  destruct (c =? c_qmark)%N; [|intros H; inversion H; subst; auto].
+  intros H. apply bind_ok in H as [r0 [_ H]]. apply bind_ok in H as [rest [H1 H]].
+  inversion H; subst. apply trim_start_hd.
+Qed.
+
+(* ---------- parse_attributes ---------- *)
+Lemma find_split_pos : forall s e c, find_split (c :: s) = Some e -> is_split c = false -> 1 <= e.
+Proof.
+  intros s e c H Hc. cbn in H. rewrite Hc in H. destruct (find_split s); cbn in H; inversion H; lia.
+Qed.
+
+Lemma parse_attributes_loop_total : forall n acc s,
+  length s < n -> np (parse_attributes_loop n acc s) /\ nf (parse_attributes_loop n acc s).
+Proof.
+  induction n as [|n IH]; intros acc s Hn; [lia|].
+  destruct s as [|c s]; cbn [parse_attributes_loop]; [split; discriminate|].
+  destruct (c =? c_at)%N eqn:E; [|split; discriminate].
+  destruct (find_split (c :: s)) as [e|] eqn:F; [|split; discriminate].
+  apply IH. apply N.eqb_eq in E. subst c.
+  apply find_split_pos in F; [|reflexivity].
+  pose proof (trim_len (skipn e (c_at :: s))). rewrite skipn_length in H. cbn [length] in *. lia.
+Qed.
+
+Theorem parse_attributes_total : forall s, np (parse_attributes s) /\ nf (parse_attributes s).
+Proof.
+  intros. unfold parse_attributes. apply parse_attributes_loop_total.
+  pose proof (trim_len s). lia.
+Qed.
+
+Lemma parse_attributes_loop_res : forall n acc s a r,
+  hd_nows s -> parse_attributes_loop n acc s = Ok (a, r) -> length r <= length s /\ hd_nows r.
+Proof.
+  induction n as [|n IH]; intros acc s a r Hs H.
+  - destruct s as [|c s]; cbn in H; [inversion H; subst; auto|].
+    destruct (c =? c_at)%N; [discriminate | inversion H; subst; auto].
+  - destruct s as [|c s]; cbn [parse_attributes_loop] in H; [inversion H; subst; auto|].
+    destruct (c =? c_at)%N; [|inversion H; subst; auto].
+    destruct (find_split (c :: s)) as [e|]; [|discriminate].
+    apply IH in H; [|apply trim_hd]. destruct H as [H1 H2]. split; auto.
+    pose proof (trim_len (skipn e (c :: s))). rewrite skipn_length in H. lia.
+Qed.
+
+Lemma parse_attributes_res : forall s a r,
+  parse_attributes s = Ok (a, r) -> length r <= length s /\ hd_nows r.
+Proof.
+  intros s a r H. unfold parse_attributes in H. apply parse_attributes_loop_res in H; [|apply trim_hd].
+  pose proof (trim_len s). destruct H; split; auto; lia.
+Qed.
